@@ -37,16 +37,52 @@ func (h *determHub) RequestFuture(targetName string, msg interface{}, timeout ti
 	return f
 }
 
+// determDeadline is the block-generation context handed to NewBlockGenerator: GatherTXs's
+// checkBGTimeout (tx.go:140-158) selects on Done() and reads Err().  It expires (Err =
+// context.DeadlineExceeded, as a context.WithDeadline of the block factory does) when fire() is
+// called — deterministically, at a chosen position of the candidate list.
+type determDeadline struct {
+	done  chan struct{}
+	fired bool
+}
+
+func (d *determDeadline) Deadline() (time.Time, bool)       { return time.Time{}, false }
+func (d *determDeadline) Done() <-chan struct{}             { return d.done }
+func (d *determDeadline) Value(key interface{}) interface{} { return nil }
+func (d *determDeadline) Err() error {
+	if d.fired {
+		return context.DeadlineExceeded
+	}
+	return nil
+}
+func (d *determDeadline) fire() {
+	if !d.fired {
+		d.fired = true
+		close(d.done)
+	}
+}
+
 func init() {
 	chain.VerifDetermGenerate = func(bi *types.BlockHeaderInfo, bs *state.BlockState, exec chain.TxExecFn,
-		txs []types.Transaction, onTx func(tx types.Transaction, err error)) (*types.Block, error) {
+		txs []types.Transaction, onTx func(tx types.Transaction, err error), deadline *int) (*types.Block, error) {
+		ctx := &determDeadline{done: make(chan struct{})}
+		if deadline != nil && *deadline < 0 {
+			ctx.fire() // expired before gathering starts
+		}
+		pos := map[string]int{}
+		for k, tx := range txs {
+			pos[string(tx.GetHash())] = k
+		}
 		// the DPoS block factory's TxOp (blockfactory.go:39-49): just the executor
 		txOp := cchain.TxOpFn(func(bState *state.BlockState, tx types.Transaction) error {
+			if deadline != nil && *deadline == pos[string(tx.GetHash())] {
+				ctx.fire() // the deadline passes while this transaction is executing
+			}
 			err := exec(bState, tx)
 			onTx(tx, err)
 			return err
 		})
-		return cchain.NewBlockGenerator(&determHub{txs: txs}, context.Background(), bi, bs, txOp, false).
+		return cchain.NewBlockGenerator(&determHub{txs: txs}, ctx, bi, bs, txOp, false).
 			SetNoTTE(true).
 			GenerateBlock()
 	}
